@@ -299,7 +299,7 @@ def exits_ok(ctx):
     for e in oks:
         # which helper result decides this exit?
         decided = None
-        for (d, s_) in sorted(run.control_dep_closure(e["bb"])):
+        for (d, s_) in sorted(run.control_deps.get(e["bb"], set())):
             t = run.term(d)
             if t["k"] != "switch":
                 continue
